@@ -291,3 +291,115 @@ func zzRun(sc *zzScenario, res *zzResult) {
 	}
 }
 `
+
+// nativeReplayTestSrc is injected into package native (tracers/native) of /repo: it feeds one event stream to
+// the real call tracer or flat call tracer and prints "ZZREPLAY <json>".
+const nativeReplayTestSrc = `package native
+
+import (
+	"encoding/json"
+	"errors"
+	"fmt"
+	"math/big"
+	"os"
+	"testing"
+
+	"github.com/artela-network/artela-evm/vm"
+	aspecttypes "github.com/artela-network/aspect-core/types"
+	"github.com/ethereum/go-ethereum/common"
+	"github.com/ethereum/go-ethereum/core/rawdb"
+	gethstate "github.com/ethereum/go-ethereum/core/state"
+	"github.com/ethereum/go-ethereum/params"
+)
+
+type zzEvent struct {
+	Ev      string ` + "`json:\"ev\"`" + `
+	JP      int32  ` + "`json:\"jp\"`" + `
+	Aspect  string ` + "`json:\"aspect\"`" + `
+	Gas     uint64 ` + "`json:\"gas\"`" + `
+	GasLeft uint64 ` + "`json:\"gas_left\"`" + `
+	To      string ` + "`json:\"to\"`" + `
+	Err     string ` + "`json:\"err\"`" + `
+}
+
+type zzStream struct {
+	Tracer string    ` + "`json:\"tracer\"`" + `
+	Events []zzEvent ` + "`json:\"events\"`" + `
+}
+
+func TestZZVerifReplay(t *testing.T) {
+	raw, err := os.ReadFile(os.Getenv("VERIF_SCENARIO"))
+	if err != nil {
+		t.Fatal(err)
+	}
+	var sc zzStream
+	if err := json.Unmarshal(raw, &sc); err != nil {
+		t.Fatal(err)
+	}
+	res := map[string]interface{}{"panicked": false}
+	func() {
+		defer func() {
+			if r := recover(); r != nil {
+				res["panicked"] = true
+				res["panic"] = fmt.Sprint(r)
+			}
+		}()
+		statedb, _ := gethstate.New(common.Hash{}, gethstate.NewDatabase(rawdb.NewMemoryDatabase()), nil)
+		cfg := *params.AllEthashProtocolChanges
+		env := vm.NewEVM(vm.BlockContext{BlockNumber: big.NewInt(1), Difficulty: big.NewInt(0)}, vm.TxContext{GasPrice: big.NewInt(0)}, statedb, &cfg, vm.Config{})
+		var tr interface {
+			vm.EVMLogger
+			aspecttypes.AspectLogger
+			GetResult() (json.RawMessage, error)
+		}
+		if sc.Tracer == "flat" {
+			x, e := newFlatCallTracer(nil, nil)
+			if e != nil {
+				panic(e)
+			}
+			tr = x.(*flatCallTracer)
+		} else {
+			x, e := newCallTracer(nil, nil)
+			if e != nil {
+				panic(e)
+			}
+			tr = x.(*callTracer)
+		}
+		from := common.HexToAddress("0xaa")
+		for _, ev := range sc.Events {
+			var e error
+			if ev.Err != "" {
+				e = errors.New(ev.Err)
+			}
+			to := common.HexToAddress(ev.To)
+			switch ev.Ev {
+			case "txstart":
+				tr.CaptureTxStart(ev.Gas)
+			case "txend":
+				tr.CaptureTxEnd(ev.GasLeft)
+			case "start":
+				tr.CaptureStart(env, from, to, false, nil, ev.Gas, big.NewInt(0))
+			case "end":
+				tr.CaptureEnd(nil, ev.Gas, e)
+			case "enter":
+				tr.CaptureEnter(vm.CALL, from, to, nil, ev.Gas, big.NewInt(0))
+			case "exit":
+				tr.CaptureExit(nil, ev.Gas, e)
+			case "aspectenter":
+				tr.CaptureAspectEnter(aspecttypes.JoinPointRunType(ev.JP), from, to, common.HexToAddress(ev.Aspect), nil, ev.Gas, big.NewInt(0), nil)
+			case "aspectexit":
+				tr.CaptureAspectExit(aspecttypes.JoinPointRunType(ev.JP), &aspecttypes.AspectExecutionResult{Gas: ev.GasLeft, Err: e})
+			default:
+				panic("unknown event " + ev.Ev)
+			}
+		}
+		out, e := tr.GetResult()
+		if e != nil {
+			res["result_err"] = e.Error()
+		}
+		res["result"] = json.RawMessage(out)
+	}()
+	b, _ := json.Marshal(res)
+	fmt.Println("ZZREPLAY " + string(b))
+}
+`
